@@ -1,4 +1,5 @@
 import Driver.Bls
+import Driver.Layout
 /-! Correspondence driver: `lake env lean --run Driver/Main.lean <suite>`; one JSON case per input line,
     one JSON outcome per output line (`{"id":…, …}` or `{"id":…,"err":…}`). -/
 open Lean
@@ -6,6 +7,7 @@ open Lean
 def dispatch (suite : String) (j : Json) : Except String Json :=
   match suite with
   | "bls" => DriverBls.handle j
+  | "layout" => DriverLayout.handle j
   | s => throw s!"unknown suite {s}"
 
 partial def loop (suite : String) (h : IO.FS.Stream) (out : IO.FS.Stream) : IO Unit := do
